@@ -80,6 +80,9 @@ Definition check_raw_prop (T : tables) (reg_unperm : registry) (c : c01case) : b
               else true
           | None => true
           end
+      | RConnErr =>
+          (* no complete frame (cut short, size below the header or above the limit): nothing may be delivered *)
+          match res with RROk _ _ _ => false | _ => true end
       | _ => true
       end
   | _ => true
